@@ -176,6 +176,9 @@ def run(ctx):
             ok = len(st) == 1 and S.show(dict(st[0].term[2])['server_properties']).endswith('?.1') and S.show(dict(st[0].term[2])['channel0']).endswith('?.2')
             r.check('%s:exposes-server-properties' % fnp2.split('::')[-1], ok, ctx.site(fnp2), built=[S.show(e.term)[:300] for e in st])
 
+    with ctx.rule('R16.7', 'FrameMaxTooSmall is decided on the negotiated frame_max, before any TuneOk (shared with C15)', floor=4) as r:
+        A.include(ctx, r, 'c15', 'R15.2')
+
     with ctx.rule('R16.4', 'a connection exists only after Done', floor=5) as r:
         ck = panics.Checkers(ctx)
         ok, why = ck.run('handshake_done_signalled_after_handshake')
